@@ -179,6 +179,20 @@ def _ends_in_return(stmts: List[ast.stmt]) -> bool:
     return False
 
 
+def _computes_only(helper: ast.FunctionDef) -> bool:
+    """the helper only computes and returns a value: local assignments, tests, asserts, returns"""
+    for x in ast.walk(helper):
+        if isinstance(x, (ast.Attribute, ast.Subscript)) and isinstance(x.ctx, (ast.Store, ast.Del)):
+            return False
+        if isinstance(x, ast.Expr) and isinstance(x.value, ast.Call):
+            return False
+        if isinstance(x, (ast.AugAssign,)) and not isinstance(x.target, ast.Name):
+            return False
+        if isinstance(x, (ast.With, ast.Try, ast.While)):
+            return False
+    return True
+
+
 def _walk_header(node):
     """the expressions evaluated by a CFG node itself (not the bodies of the compound statement it heads)"""
     from .cfg import walk_node
@@ -369,8 +383,18 @@ class Inliner:
             # temporary first (only when it is the statement's single call, so evaluation order is untouched)
             if depth < MAX_DEPTH and isinstance(s, (ast.Return, ast.Assign, ast.AnnAssign, ast.AugAssign, ast.Expr)):
                 val = getattr(s, "value", None)
-                if val is not None and not isinstance(val, ast.Call):
-                    calls = [x for x in ast.walk(val) if isinstance(x, ast.Call)]
+                if val is not None:
+                    allcalls = [x for x in ast.walk(val) if isinstance(x, ast.Call)]
+                    calls = [x for x in allcalls if x is not val or not isinstance(val, ast.Call)]
+                    # the only call of the expression, or the only *private-helper* call when that helper merely computes
+                    # a value (no attribute/subscript stores, no call statements): evaluating it first changes nothing
+                    priv = [x for x in allcalls if self.resolve(x, fi) is not None and not (x is val)]
+                    if len(allcalls) > 1 and len(priv) == 1 and _computes_only(self.resolve(priv[0], fi)):
+                        calls = priv
+                    elif isinstance(val, ast.Call) and isinstance(s, ast.AugAssign) and self.resolve(val, fi) is not None:
+                        calls = [val]          # x += helper(...): evaluate the helper into a temporary first
+                    elif isinstance(val, ast.Call):
+                        calls = []
                     if len(calls) == 1 and all(_is_simple(a) for a in calls[0].args) and all(_is_simple(k.value) for k in calls[0].keywords):
                         h = self.resolve(calls[0], fi)
                         if h is not None and self.expr_inline(h, calls[0]) is None:
@@ -384,7 +408,7 @@ class Inliner:
                                         if n is calls[0]:
                                             return ast.copy_location(ast.Name(id=tmp, ctx=ast.Load()), n)
                                         return self.generic_visit(n)
-                                s.value = _H().visit(val)
+                                s.value = ast.copy_location(ast.Name(id=tmp, ctx=ast.Load()), val) if calls[0] is val else _H().visit(val)
                                 self.inlined.append((fi.qualname, ast.unparse(calls[0].func)))
                                 out += self.rewrite_block(repl2, fi, depth + 1)
                                 out.append(s)
